@@ -149,6 +149,16 @@ def gen_project(rnd, idx):
             truth[nm] = {"attr": akey, "vis": "pub", "async": False, "ret": ("num",), "pre": 0, "post": 0, "layout": "plain", "file": "bindings.rs", "depth": 0}
         files.append(("bindings.rs", rg.PRELUDE + extra))
         feats.add("commands-named-like-module-bindings")
+    if idx % 6 == 2:
+        # commands written with raw identifiers (fn r#type): the command's name — what Tauri registers and invoke must say — is the
+        # identifier without the r# prefix
+        akey, atext = ATTRS[0]
+        extra = ""
+        for nm in rnd.sample(["type", "move", "match", "ref", "loop", "try", "dyn", "in"], 3):
+            extra += rg.command_src("r#" + nm, rnd.choice(PARAM_LAYOUTS[:3]), "i32", False, atext, "pub ")
+            truth[nm] = {"attr": akey, "vis": "pub", "async": False, "ret": ("num",), "pre": 0, "post": 0, "layout": "plain", "file": "raw_names.rs", "depth": 0}
+        files.append(("raw_names.rs", rg.PRELUDE + extra))
+        feats.add("raw-identifier-command-names")
     if not truth:
         name, src, info = command()
         info["file"] = "lib.rs"
